@@ -450,9 +450,9 @@ package route
 //@   partial-anchors
 //@   props C08 C01
 // a failed registration leaves every list of the tree as it was (nothing dangling gets in the way of a later registration)
-//@   ensures[C08] result1 != nil ==> forall n *baseTree :: old(live(n)) ==> n.subtrees == old(n.subtrees) && n.leaves == old(n.leaves)
-//@   ensures[C08] result1 != nil ==> forall n *baseTree, k int :: old(live(n)) && 0 <= k && k < len(old(n.subtrees)) ==> n.subtrees[k] == old(n.subtrees[k])
-//@   ensures[C08] result1 != nil ==> forall n *baseTree, k int :: old(live(n)) && 0 <= k && k < len(old(n.leaves)) ==> n.leaves[k] == old(n.leaves[k])
+//@   ensures[C08,C01] result1 != nil ==> forall n *baseTree :: old(live(n)) ==> n.subtrees == old(n.subtrees) && n.leaves == old(n.leaves)
+//@   ensures[C08,C01] result1 != nil ==> forall n *baseTree, k int :: old(live(n)) && 0 <= k && k < len(old(n.subtrees)) ==> n.subtrees[k] == old(n.subtrees[k])
+//@   ensures[C08,C01] result1 != nil ==> forall n *baseTree, k int :: old(live(n)) && 0 <= k && k < len(old(n.leaves)) ==> n.leaves[k] == old(n.leaves[k])
 //@   loop 1 invariant[C01,C08] leaves == nodeOf(t).leaves && leaf != nil && (forall k int :: 0 <= k && k < i ==> leafStyle(leaves[k]) <= leafStyle(leaf))
 //@   loop 1 invariant[C01,C08] forall k int :: 0 <= k && k < len(leaves) ==> nodeOf(t).snapLeaves[k] == leaves[k]
 //@   ghost after getLeaves#1: nodeOf(t).snapLeaves = seqof(nodeOf(t).leaves)
@@ -475,9 +475,9 @@ package route
 //@   partial-anchors
 //@   props C08 C01
 // a failed registration leaves every list of the tree as it was (nothing dangling gets in the way of a later registration)
-//@   ensures[C08] result1 != nil ==> forall n *baseTree :: old(live(n)) ==> n.subtrees == old(n.subtrees) && n.leaves == old(n.leaves)
-//@   ensures[C08] result1 != nil ==> forall n *baseTree, k int :: old(live(n)) && 0 <= k && k < len(old(n.subtrees)) ==> n.subtrees[k] == old(n.subtrees[k])
-//@   ensures[C08] result1 != nil ==> forall n *baseTree, k int :: old(live(n)) && 0 <= k && k < len(old(n.leaves)) ==> n.leaves[k] == old(n.leaves[k])
+//@   ensures[C08,C01] result1 != nil ==> forall n *baseTree :: old(live(n)) ==> n.subtrees == old(n.subtrees) && n.leaves == old(n.leaves)
+//@   ensures[C08,C01] result1 != nil ==> forall n *baseTree, k int :: old(live(n)) && 0 <= k && k < len(old(n.subtrees)) ==> n.subtrees[k] == old(n.subtrees[k])
+//@   ensures[C08,C01] result1 != nil ==> forall n *baseTree, k int :: old(live(n)) && 0 <= k && k < len(old(n.leaves)) ==> n.leaves[k] == old(n.leaves[k])
 //@   loop 1 invariant[C01,C08] subtrees == nodeOf(t).subtrees && isTreeChild(subtree) && (forall k int :: 0 <= k && k < i ==> style(subtrees[k]) <= style(subtree))
 //@   loop 1 invariant[C01,C08] forall k int :: 0 <= k && k < len(subtrees) ==> nodeOf(t).snapTrees[k] == subtrees[k]
 //@   ghost after getSubtrees#1: nodeOf(t).snapTrees = seqof(nodeOf(t).subtrees)
@@ -502,9 +502,9 @@ package route
 //@ func addNextSegment
 //@   props C08 C01
 // a failed registration leaves every list of the tree as it was (nothing dangling gets in the way of a later registration)
-//@   ensures[C08] result1 != nil ==> forall n *baseTree :: old(live(n)) ==> n.subtrees == old(n.subtrees) && n.leaves == old(n.leaves)
-//@   ensures[C08] result1 != nil ==> forall n *baseTree, k int :: old(live(n)) && 0 <= k && k < len(old(n.subtrees)) ==> n.subtrees[k] == old(n.subtrees[k])
-//@   ensures[C08] result1 != nil ==> forall n *baseTree, k int :: old(live(n)) && 0 <= k && k < len(old(n.leaves)) ==> n.leaves[k] == old(n.leaves[k])
+//@   ensures[C08,C01] result1 != nil ==> forall n *baseTree :: old(live(n)) ==> n.subtrees == old(n.subtrees) && n.leaves == old(n.leaves)
+//@   ensures[C08,C01] result1 != nil ==> forall n *baseTree, k int :: old(live(n)) && 0 <= k && k < len(old(n.subtrees)) ==> n.subtrees[k] == old(n.subtrees[k])
+//@   ensures[C08,C01] result1 != nil ==> forall n *baseTree, k int :: old(live(n)) && 0 <= k && k < len(old(n.leaves)) ==> n.leaves[k] == old(n.leaves[k])
 //@   ensures len(r.Segments) > next + 1 && r.Segments[next].Optional ==> result1 != nil
 //@   requires treeWF() && isTree(t) && bareOK(t) && routeWF(r) && h != nil && 0 <= next && next < len(r.Segments)
 //@   requires forall k int :: 0 <= k && k < next ==> !r.Segments[k].Optional
@@ -516,9 +516,9 @@ package route
 //@ func AddRoute
 //@   props C08 C01
 // a failed registration leaves every list of the tree as it was (nothing dangling gets in the way of a later registration)
-//@   ensures[C08] result1 != nil ==> forall n *baseTree :: old(live(n)) ==> n.subtrees == old(n.subtrees) && n.leaves == old(n.leaves)
-//@   ensures[C08] result1 != nil ==> forall n *baseTree, k int :: old(live(n)) && 0 <= k && k < len(old(n.subtrees)) ==> n.subtrees[k] == old(n.subtrees[k])
-//@   ensures[C08] result1 != nil ==> forall n *baseTree, k int :: old(live(n)) && 0 <= k && k < len(old(n.leaves)) ==> n.leaves[k] == old(n.leaves[k])
+//@   ensures[C08,C01] result1 != nil ==> forall n *baseTree :: old(live(n)) ==> n.subtrees == old(n.subtrees) && n.leaves == old(n.leaves)
+//@   ensures[C08,C01] result1 != nil ==> forall n *baseTree, k int :: old(live(n)) && 0 <= k && k < len(old(n.subtrees)) ==> n.subtrees[k] == old(n.subtrees[k])
+//@   ensures[C08,C01] result1 != nil ==> forall n *baseTree, k int :: old(live(n)) && 0 <= k && k < len(old(n.leaves)) ==> n.leaves[k] == old(n.leaves[k])
 //@   requires treeWF() && isTree(t) && bareOK(t) && h != nil && (r == nil || len(r.Segments) == 0 || routeWF(r))
 //@   modifies baseTree.leaves, baseTree.subtrees, baseTree.snapLeaves, baseTree.snapTrees, Segment.scratchIdx, elems(type([]Leaf)), elems(type([]Tree)), Segment.str, Segment.strOnce.fired, Route.str, Route.strOnce.fired
 //@   ensures treeWF()
@@ -540,7 +540,7 @@ package route
 // Static(): the leaf and all its ancestors are static
 //@ define staticAnc(t Tree) bool = t == nil || (style(t) <= 1 && staticAnc(nodeOf(t).parent))
 //@ func (*staticLeaf).Static
-//@   props C10
+//@   props C10 C01 C02 C07
 //@   requires treeWF()
 //@   modifies nothing
 //@   ensures result == staticAnc(l.parent)
